@@ -79,6 +79,10 @@ def gen_case(rng, tier, i):
         if isinstance(m, dict) and 'n' in m and rng.random() < 0.5:
             m['k'] = float(L.loguniform(rng, 1e-8, 1e-5))
             classes.append('absorbing-medium')
+        elif m == 'air' and k < K - 1 and rng.random() < 0.12:
+            # an absorbing gap whose index is exactly 1 (a gas cell): absorption does not depend on the index being != 1
+            s['medium'] = {'n': 1.0, 'k': float(L.loguniform(rng, 1e-8, 1e-5))}
+            classes.append('absorbing-medium-index-1')
         if k < K - 1 and rng.random() < 0.35:
             T = float(rng.choice([0.0, 1.0, rng.uniform(0, 1)]))
             R = float(rng.uniform(0, 1 - T)) if rng.random() < 0.7 else float(rng.uniform(0, 1))
